@@ -234,6 +234,15 @@ func (e *Exec) feeTxMethod(o Opaque, method string) (Value, bool) {
 }
 
 func init() {
+	// plain SDK event constructors are executed from their source (an event built from
+	// non-deterministic text is then visible to the determinism obligations)
+	for _, f := range []string{"NewAttribute", "NewEvent", "(Attribute).ToKVPair"} {
+		if f[0] == '(' {
+			execFuncs["(github.com/cosmos/cosmos-sdk/types."+f[1:]] = true
+		} else {
+			execFuncs["github.com/cosmos/cosmos-sdk/types."+f] = true
+		}
+	}
 	for _, m := range []string{"IsCheckTx", "IsReCheckTx"} {
 		stubs["(github.com/cosmos/cosmos-sdk/types.Context)."+m] = func(e *Exec, fn *ssa.Function, args []Value) Value {
 			e.Notes["Context.IsCheckTx / IsReCheckTx: false (block execution; mempool admission is not part of the properties)"] = true
